@@ -188,6 +188,12 @@ class SyncedList(SyncedCollection, MutableSequence):
         """
         data = _convert_numpy(data)
         if _sequence_resolver.get_type(data) == "SEQUENCE":
+            if self._root is not None:
+                # A nested collection is saved as part of its root, so the rest
+                # of the data must be current before it is written back.
+                with self._load_and_save:
+                    self._update(data)
+                return
             self._update(data)
             with self._thread_lock:
                 self._save()
@@ -241,6 +247,12 @@ class SyncedList(SyncedCollection, MutableSequence):
             self._data.remove(self._from_base(data=value, parent=self))
 
     def clear(self):  # noqa: D102
+        if self._root is not None:
+            # A nested collection is saved as part of its root, so the rest of
+            # the data must be current before it is written back.
+            with self._load_and_save:
+                self._data.clear()
+            return
         self._data = []
         with self._thread_lock:
             self._save()
